@@ -1,6 +1,8 @@
-(** Property C14 — statements only. Each theorem is closed by [exact] of a lemma
-    proved elsewhere and followed by [Print Assumptions]. *)
-From CR Require Import Base Atomic Machine LinksFacts HeapFacts TraceFacts Local.
+(** Property C14 — objects without recorded adoptions pay no tracing cost. *)
+From Coq Require Import Permutation.
+From CR Require Import Base Atomic Machine LinksFacts HeapFacts TraceFacts TraceTotal Local StackBound
+  Termination Perm StdRc StdRefine Tokens InvDef InvLemmas ActBase ActHandles ActAdopt ActMove ActConsume
+  StepFrames StepPanic Purge GroupOps DropDec Group DropLast StepInv RunInv Consequences Common.
 Local Open Scope N_scope.
 
 Theorem C14_drop_unadopted_no_trace :
@@ -16,8 +18,22 @@ Theorem C14_clone_no_trace :
 Proof. exact clone_no_trace. Qed.
 Print Assumptions C14_clone_no_trace.
 
+(** after removing every record the table is empty again, so the fast path applies *)
 Theorem C14_unadopt_all_empties :
   forall t, tbl_wf t -> (t = [] <-> forall l, tbl_get t l = 0).
 Proof. exact tbl_empty_iff. Qed.
 Print Assumptions C14_unadopt_all_empties.
 
+(** a program that never adopts never traces and never collects a group *)
+Theorem C14_no_adoption_no_trace :
+  forall fuel h, noadopt_history h ->
+  cyc_events (log (fst (run_history fuel init_state h))) = [] /\
+  traces (log (fst (run_history fuel init_state h))) = [].
+Proof. exact noadopt_program_never_traces. Qed.
+Print Assumptions C14_no_adoption_no_trace.
+
+Theorem C14_unadopted_drop_is_std_drop :
+  forall pri s o, no_records (heap_of s) -> StdRefine.live_has_table (heap_of s) ->
+  drop_strong pri s o = std_drop_strong s o.
+Proof. exact drop_strong_fast. Qed.
+Print Assumptions C14_unadopted_drop_is_std_drop.
